@@ -21,6 +21,10 @@ func checkC04(p *Prog, r *Report) {
 	rulePoolUAR(p, r, "C04")
 	rulePoolOwn(p, r)
 	rulePoolNew(p, r)
+	ruleStreamPos(p, r)
+	rulePoolNil(p, r)
+	r.Floor("POOL-NIL", 6)
+	r.Floor("STREAMPOS", 1)
 	r.Floor("POOL-OWN", 6)
 	ruleGlobW(p, r)
 	ruleSizeG(p, r)
